@@ -94,10 +94,10 @@ fn redundancy(rep: &mut Report, rng: &mut Rng, k: u64) {
 }
 
 pub fn run(ctx: &Ctx, rep: &mut Report) {
-    let rounds = ctx.n(10, 120);
+    let rounds = ctx.n(10, 400);
     let n_cfg = 880 * rounds;
-    let n_red = ctx.n(900, 12_000);
-    let n_fill = ctx.n(64, 1000);
+    let n_red = ctx.n(900, 48_000);
+    let n_fill = ctx.n(64, 3000);
     for k in ctx.cases(n_cfg + n_red + n_fill) {
         rep.cur_case = k;
         crate::ctx::begin_case(k);
